@@ -19,6 +19,8 @@ git checkout -q -- . ; rm -rf rarena-allocator/tests
 echo "$name: demo without patch rc=$r0 (want 0); with patch rc=$r1 (want !=0); suite: $t1 | memmap: $t2"
 mkdir -p /verif/seeded/$name && cp -r OUT/patch.diff OUT/demo OUT/meta.json /verif/seeded/$name/ 
 cd /verif
+# the evidence files belong to the unchanged tree: keep them
+EVBAK=$(mktemp -d /dev/shm/evbak.XXXXXX); cp -a evidence/. $EVBAK/ 2>/dev/null
 res=""
 if git -C /repo diff --quiet && git -C /repo apply /verif/seeded/$name/patch.diff; then
   for p in $props; do
@@ -27,6 +29,7 @@ if git -C /repo diff --quiet && git -C /repo apply /verif/seeded/$name/patch.dif
   done
   git -C /repo checkout -- .
 else res="could not apply to /repo"; fi
+cp -a $EVBAK/. evidence/ 2>/dev/null; rm -rf $EVBAK
 echo "$name: checks ->$res"
 python3 - "$name" "$r0" "$r1" "$t1" "$t2" "$res" <<'PY'
 import json,sys
